@@ -819,8 +819,9 @@ func writeChunk(w http.ResponseWriter, chk chunk) error {
 	if err != nil {
 		return err
 	}
-	flusher := w.(http.Flusher)
-	flusher.Flush()
+	if flusher, ok := w.(http.Flusher); ok {
+		flusher.Flush()
+	}
 	return nil
 }
 
